@@ -224,22 +224,72 @@ func holdsKey(v reflect.Value) bool {
 // extDoc: an extension config document with 0..4 TLS contexts, each with its own marker: at the top, as sibling members,
 // inside arrays (a list of agents each with its own tls_context), deep below other members, and nested inside each other;
 // the key is spelled in the three cases encoding/json accepts; now and then private_key is not a string.
-func (f *filler) extDoc(typ string) []byte {
+//
+// escMode: 0 - the member name is written plainly; 1 - now and then with JSON escapes in the TEXT (private\u005fkey,
+// \u0050rivate_key ...: the same member to every JSON decoder); 2 - every occurrence in the document is written with escapes, so
+// that the text of the document does not contain the name at all.  Key material is now and then written with escapes too.
+func (f *filler) extDoc(typ string) []byte { return f.extDocMode(typ, 0) }
+
+const escTag = "escaped-member-name:"
+
+// escapeSpelling: a JSON string literal body for the ASCII string s with some characters written as \uXXXX
+func escapeSpelling(r *Rng, s string, force bool) string {
+	var b strings.Builder
+	forced := -1
+	if force {
+		forced = r.Intn(len(s))
+	}
+	for i := 0; i < len(s); i++ {
+		if i == forced || r.Pct(25) {
+			if r.Bool() {
+				fmt.Fprintf(&b, "\\u%04x", s[i])
+			} else {
+				fmt.Fprintf(&b, "\\u%04X", s[i])
+			}
+		} else {
+			b.WriteByte(s[i])
+		}
+	}
+	return b.String()
+}
+
+func (f *filler) extDocMode(typ string, escMode int) []byte {
 	r := f.r
 	base := "ExtendConfigs[" + typ + "].Config:json:"
-	keyName := func() string {
-		return []string{"private_key", "private_key", "private_key", "Private_Key", "PRIVATE_KEY"}[r.Intn(5)]
+	if strings.HasPrefix(typ, "raw:") { // a raw part of MosnConfig (node, static_resources, dynamic_resources)
+		base = "MosnConfig." + strings.TrimPrefix(typ, "raw:") + ":json:"
+	}
+	sentinels := map[string]string{} // sentinel member name -> literal body it is replaced with in the text
+	firstMarker := len(f.markers)
+	keyName := func() (string, string) {
+		name := []string{"private_key", "private_key", "private_key", "Private_Key", "PRIVATE_KEY"}[r.Intn(5)]
+		if escMode == 2 || escMode == 1 && r.Pct(40) {
+			s := fmt.Sprintf("@@ESCKEY%d@@", len(sentinels))
+			sentinels[s] = escapeSpelling(r, name, true)
+			if escMode == 2 { // no stretch of the name long enough to be found by a textual search for it either
+				sentinels[s] = strings.Replace(sentinels[s], "_", "\\u005f", 1)
+				sentinels[s] = strings.Replace(sentinels[s], "_", "\\u005F", 1)
+			}
+			return s, escTag
+		}
+		return name, ""
 	}
 	var ctx func(where string, depth int) map[string]interface{}
 	ctx = func(where string, depth int) map[string]interface{} {
 		m := map[string]interface{}{"status": true, "server_name": f.uniq("sn")}
-		switch r.Intn(10) {
+		c := r.Intn(10)
+		if c == 1 && escMode == 2 {
+			c = 2
+		}
+		switch c {
 		case 0:
-			m[keyName()] = ""
+			k, _ := keyName()
+			m[k] = ""
 		case 1: // not a string: the walk goes on below it
 			m["private_key"] = map[string]interface{}{"private_key": f.newMarker(base + where + ".under-non-string-key")}
 		default:
-			m[keyName()] = f.newMarker(base + where)
+			k, tag := keyName()
+			m[k] = f.newMarker(base + tag + where)
 		}
 		if depth < 2 && r.Pct(25) {
 			m["inner"] = map[string]interface{}{"tls_context": ctx(where+".nested", depth+1)}
@@ -267,7 +317,193 @@ func (f *filler) extDoc(typ string) []byte {
 		doc["agents"] = agents
 	}
 	b, _ := json.Marshal(doc)
-	return b
+	text := string(b)
+	for sent, lit := range sentinels {
+		text = strings.ReplaceAll(text, `"`+sent+`"`, `"`+lit+`"`)
+	}
+	if escMode > 0 { // key material written with escapes
+		for _, m := range f.markers[firstMarker:] {
+			if r.Pct(30) {
+				text = strings.ReplaceAll(text, `"`+m.Secret+`"`, `"`+escapeSpelling(r, m.Secret, true)+`"`)
+			}
+		}
+	}
+	return []byte(text)
+}
+
+// decodedStrings: every string of the JSON documents in text (member names and values), decoded, joined by NUL.  A secret
+// is looked for in the text AND in here: a response may spell it with escapes.
+func decodedStrings(text string) string {
+	var b strings.Builder
+	dec := json.NewDecoder(strings.NewReader(text))
+	dec.UseNumber()
+	for {
+		t, err := dec.Token()
+		if err != nil {
+			break
+		}
+		if s, ok := t.(string); ok {
+			b.WriteString(s)
+			b.WriteByte(0)
+		}
+	}
+	return b.String()
+}
+
+func leakSignature(ep, class string) string {
+	if strings.Contains(class, escTag) {
+		// (one class per endpoint and part: the position inside the document is in the message)
+		return "private-key-leaked:escaped-member-name:" + ep + ":" + strings.SplitN(class, ":json:", 2)[0]
+	}
+	return "leak:" + ep + ":" + class
+}
+
+// spelledToCoq: a JSON text as a term of Model/Redact.v's sjson - member names and strings as SPELLED in the text (the
+// literal bodies, escapes included); object members sorted by their decoded names (what a re-marshal through a Go map gives)
+func spelledToCoq(raw []byte) (string, error) {
+	i := 0
+	ws := func() {
+		for i < len(raw) && (raw[i] == ' ' || raw[i] == '\t' || raw[i] == '\n' || raw[i] == '\r') {
+			i++
+		}
+	}
+	lit := func() (string, string, error) { // (literal body, decoded)
+		if i >= len(raw) || raw[i] != '"' {
+			return "", "", fmt.Errorf("string expected at %d", i)
+		}
+		j := i + 1
+		for j < len(raw) && raw[j] != '"' {
+			if raw[j] == '\\' {
+				j++
+			}
+			j++
+		}
+		if j >= len(raw) {
+			return "", "", fmt.Errorf("unterminated string")
+		}
+		body := string(raw[i+1 : j])
+		var dec string
+		if err := json.Unmarshal(raw[i:j+1], &dec); err != nil {
+			return "", "", err
+		}
+		i = j + 1
+		return body, dec, nil
+	}
+	var val func() (string, error)
+	val = func() (string, error) {
+		ws()
+		if i >= len(raw) {
+			return "", fmt.Errorf("unexpected end")
+		}
+		switch c := raw[i]; {
+		case c == '{':
+			i++
+			type mem struct{ dec, term string }
+			var ms []mem
+			ws()
+			if i < len(raw) && raw[i] == '}' {
+				i++
+				return "(SObj [])", nil
+			}
+			for {
+				ws()
+				body, dec, err := lit()
+				if err != nil {
+					return "", err
+				}
+				ws()
+				if i >= len(raw) || raw[i] != ':' {
+					return "", fmt.Errorf("colon expected")
+				}
+				i++
+				v, err := val()
+				if err != nil {
+					return "", err
+				}
+				ms = append(ms, mem{dec, "(" + coqStr(body) + ", " + v + ")"})
+				ws()
+				if i < len(raw) && raw[i] == ',' {
+					i++
+					continue
+				}
+				if i < len(raw) && raw[i] == '}' {
+					i++
+					break
+				}
+				return "", fmt.Errorf("bad object")
+			}
+			sort.SliceStable(ms, func(a, b int) bool { return ms[a].dec < ms[b].dec })
+			var ts []string
+			for k, m := range ms {
+				if k > 0 && ms[k-1].dec == m.dec {
+					return "", fmt.Errorf("duplicate member")
+				}
+				ts = append(ts, m.term)
+			}
+			return "(SObj [" + strings.Join(ts, "; ") + "])", nil
+		case c == '[':
+			i++
+			var ts []string
+			ws()
+			if i < len(raw) && raw[i] == ']' {
+				i++
+				return "(SArr [])", nil
+			}
+			for {
+				v, err := val()
+				if err != nil {
+					return "", err
+				}
+				ts = append(ts, v)
+				ws()
+				if i < len(raw) && raw[i] == ',' {
+					i++
+					continue
+				}
+				if i < len(raw) && raw[i] == ']' {
+					i++
+					break
+				}
+				return "", fmt.Errorf("bad array")
+			}
+			return "(SArr [" + strings.Join(ts, "; ") + "])", nil
+		case c == '"':
+			body, _, err := lit()
+			if err != nil {
+				return "", err
+			}
+			return "(SStr " + coqStr(body) + ")", nil
+		case c == 't' && strings.HasPrefix(string(raw[i:]), "true"):
+			i += 4
+			return "(SBool true)", nil
+		case c == 'f' && strings.HasPrefix(string(raw[i:]), "false"):
+			i += 5
+			return "(SBool false)", nil
+		case c == 'n' && strings.HasPrefix(string(raw[i:]), "null"):
+			i += 4
+			return "SNull", nil
+		default:
+			j := i
+			for j < len(raw) && strings.IndexByte("+-0123456789.eE", raw[j]) >= 0 {
+				j++
+			}
+			if j == i {
+				return "", fmt.Errorf("unexpected character %q", c)
+			}
+			n := string(raw[i:j])
+			i = j
+			return "(SNum " + coqStr(n) + ")", nil
+		}
+	}
+	t, err := val()
+	if err != nil {
+		return "", err
+	}
+	ws()
+	if i != len(raw) {
+		return "", fmt.Errorf("trailing text")
+	}
+	return t, nil
 }
 
 // canonDoc: the document with object members in sorted order (what a re-marshal through map[string]interface{} gives)
@@ -295,7 +531,7 @@ func c20(args []string) int {
 	seedMix := NewRng(run.Seed)
 	r := NewRng(seedMix.U64() ^ (seedMix.U64() << 1) ^ 0xC20)
 	log.DefaultLogger.SetLogLevel(log.FATAL)
-	run.Sum.Rule = "configurations: reflect-random values of the real config types (nil/empty/1-2 element slices and maps, nil/non-nil pointers, both TLS shapes of a filter chain, cluster and cluster-manager TLS, tunnel_agent/unknown extension configs, extension JSON documents with 0-4 TLS contexts at the top / as sibling members / in arrays / deep / nested in each other with the key in three spellings and now and then a non-string private_key), a distinct marker secret at EVERY v2.TLSConfig the types contain (85% non-empty), and in the opaque positions (interface{} / map[string]interface{} / json.RawMessage: filter, per-filter, health-check, extend-verify, tracing, codec configs, raw resources) now and then a tls_context.private_key / Private_Key / array-nested private_key marker or a direct private_key member of the map; histories: 3-14 real setter calls (SetMosnConfig/SetListenerConfig/SetClusterConfig/SetRemoveClusterConfig/SetHosts/SetRouter/SetExtend/SetClusterManagerTLS) interleaved with transferConfig and file dumps; then EVERY query variant of admin ConfigDump (the full dump six times: the JSON redactor ranges over Go maps) incl. one name per router/cluster/listener, a missing name, an unknown key, two keys and POST. A case (= one endpoint call) is non-trivial when the live config holds at least one marker reachable from that endpoint; distinct by (history shape, endpoint kind, marker classes)."
+	run.Sum.Rule = "configurations: reflect-random values of the real config types (nil/empty/1-2 element slices and maps, nil/non-nil pointers, both TLS shapes of a filter chain, cluster and cluster-manager TLS, tunnel_agent/unknown extension configs, extension JSON documents with 0-4 TLS contexts at the top / as sibling members / in arrays / deep / nested in each other with the key in three spellings and now and then a non-string private_key; member names and key material now and then - or for every occurrence in the response - written with JSON escapes in the text), a distinct marker secret at EVERY v2.TLSConfig the types contain (85% non-empty), and in the opaque positions (interface{} / map[string]interface{} / json.RawMessage: filter, per-filter, health-check, extend-verify, tracing, codec configs, raw resources) now and then a tls_context.private_key / Private_Key / array-nested private_key marker or a direct private_key member of the map; histories: 3-14 real setter calls (SetMosnConfig/SetListenerConfig/SetClusterConfig/SetRemoveClusterConfig/SetHosts/SetRouter/SetExtend/SetClusterManagerTLS) interleaved with transferConfig and file dumps; then EVERY query variant of admin ConfigDump (the full dump six times: the JSON redactor ranges over Go maps) incl. one name per router/cluster/listener, a missing name, an unknown key, two keys and POST. A case (= one endpoint call) is non-trivial when the live config holds at least one marker reachable from that endpoint; distinct by (history shape, endpoint kind, marker classes)."
 	placeholder := configmanager.VerifPlaceholder()
 	tmpRoot := filepath.Join(run.Out, "cfgdir")
 	os.MkdirAll(tmpRoot, 0o755)
@@ -306,6 +542,7 @@ func c20(args []string) int {
 	newShard := func() { sh = run.NewShard(header, "c20_case", "c20_mismatches") }
 	newShard()
 	extSh := run.NewShard(header, "ext_json_case", "ext_json_mismatches")
+	spSh := run.NewShard(header, "spelled_case", "spelled_mismatches")
 
 	nHist := run.N(36, 400)
 	for h := 0; h < nHist; h++ {
@@ -402,7 +639,7 @@ func c20(args []string) int {
 					raw, _ = json.Marshal(map[string]interface{}{f.uniq("k"): f.anyJSON(0), "n": 12345678901234567})
 				}
 				if r.Pct(60) {
-					raw = f.extDoc(typ)
+					raw = f.extDocMode(typ, []int{0, 1, 1, 2}[r.Intn(4)])
 				}
 				configmanager.SetExtend(typ, raw)
 				ops = append(ops, "SetExtend:"+typ)
@@ -436,8 +673,9 @@ func c20(args []string) int {
 			placed[m.Secret] = m
 		}
 		var rawMarkers []string
+		rawDecoded0 := decodedStrings(string(rawDoc))
 		for s := range placed {
-			if strings.Contains(string(rawDoc), s) {
+			if strings.Contains(string(rawDoc), s) || strings.Contains(rawDecoded0, s) {
 				rawMarkers = append(rawMarkers, s)
 			}
 		}
@@ -491,8 +729,9 @@ func c20(args []string) int {
 		liveBefore = newVPrinter(true).val(confValue())
 		rawDoc, _ = json.Marshal(configmanager.VerifConf())
 		rawMarkers = rawMarkers[:0]
+		rawDecoded := decodedStrings(string(rawDoc))
 		for s := range placed {
-			if strings.Contains(string(rawDoc), s) {
+			if strings.Contains(string(rawDoc), s) || strings.Contains(rawDecoded, s) {
 				rawMarkers = append(rawMarkers, s)
 			}
 		}
@@ -519,8 +758,9 @@ func c20(args []string) int {
 			}
 			var found []string
 			classes := map[string]bool{}
+			bodyDecoded := decodedStrings(body)
 			for s, m := range placed {
-				if strings.Contains(body, s) {
+				if strings.Contains(body, s) || strings.Contains(bodyDecoded, s) {
 					found = append(found, s)
 					classes[m.Class] = true
 				}
@@ -535,7 +775,7 @@ func c20(args []string) int {
 			liveChanged := liveAfter != liveBefore
 			replay := map[string]interface{}{"ops": ops, "endpoint": ep.Query, "method": method}
 			for c := range classes {
-				run.Fail("leak:"+ep.Kind+":"+c, fmt.Sprintf("config_dump%s returns the inline private key placed at %s", ep.Query, c), replay)
+				run.Fail(leakSignature(ep.Kind, c), fmt.Sprintf("config_dump%s returns the inline private key placed at %s", ep.Query, c), replay)
 			}
 			if liveChanged {
 				d := firstDiff(liveBefore, liveAfter)
@@ -620,26 +860,69 @@ func c20(args []string) int {
 		configmanager.Reset()
 		f := &filler{r: r, maxDepth: 4}
 		var ops []string
+		// the state holds nothing but extension configs (no listener, no cluster): with escMode 2 NO member of the whole
+		// response is spelled private_key in the text
+		escMode := []int{0, 1, 1, 2, 2}[h%5]
 		for i, n := 0, 1+r.Intn(3); i < n; i++ {
 			typ := []string{"tunnel_agent", "other_ext", "holmes", "agents_ext"}[r.Intn(4)]
-			configmanager.SetExtend(typ, f.extDoc(typ))
-			ops = append(ops, "SetExtend:"+typ)
+			configmanager.SetExtend(typ, f.extDocMode(typ, escMode))
+			ops = append(ops, fmt.Sprintf("SetExtend:%s:escaped-names=%d", typ, escMode))
+		}
+		var rawDocs []string
+		if h%3 == 0 { // the raw parts of MosnConfig: printed by the full dump and by ?mosnconfig
+			cfg := &v2.MOSNConfig{}
+			for _, part := range []string{"Node", "RawStaticResources", "RawDynamicResources"} {
+				if r.Pct(60) {
+					d := f.extDocMode("raw:"+part, escMode)
+					reflect.ValueOf(cfg).Elem().FieldByName(part).SetBytes(d)
+					rawDocs = append(rawDocs, string(d))
+				}
+			}
+			configmanager.SetMosnConfig(cfg)
+			ops = append(ops, fmt.Sprintf("SetMosnConfig:raw-parts:escaped-names=%d", escMode))
 		}
 		exts, _ := confField("ExtendConfigs").Interface().([]v2.ExtendConfig)
-		body := ""
+		bodies := map[string]string{}
 		for rep := 0; rep < 6; rep++ {
 			_, b := adminGet("GET", "")
-			body += "\n" + b
+			bodies["full"] += "\n" + b
 		}
-		nMarkers := 0
-		for _, m := range f.markers {
-			nMarkers++
-			if strings.Contains(body, m.Secret) {
-				var docs []string
-				for _, e := range exts {
-					docs = append(docs, string(e.Config))
+		_, bm := adminGet("GET", "?mosnconfig")
+		bodies["mosnconfig"] = bm
+		body := bodies["full"]
+		nMarkers := len(f.markers)
+		for _, epk := range []string{"full", "mosnconfig"} {
+			bd := bodies[epk]
+			bodyDecoded := decodedStrings(bd)
+			for _, m := range f.markers {
+				if strings.Contains(bd, m.Secret) || strings.Contains(bodyDecoded, m.Secret) {
+					docs := append([]string{}, rawDocs...)
+					for _, e := range exts {
+						docs = append(docs, string(e.Config))
+					}
+					run.Fail(leakSignature(epk, m.Class), "config_dump (endpoint "+epk+") returns the inline private key placed at "+m.Class+" (member names as spelled in the stored documents: see documents)", map[string]interface{}{"ops": ops, "documents": docs, "marker": m.Secret})
 				}
-				run.Fail("leak:full:"+m.Class, "config_dump returns the inline private key placed at "+m.Class, map[string]interface{}{"ops": ops, "extension_documents": docs, "marker": m.Secret})
+			}
+		}
+		_ = body
+		run.Sum.Distribution[fmt.Sprintf("ext-doc:escaped-names-mode=%d", escMode)]++
+		// the text-level pass on its own, on the stored TEXT of every extension document: the model redacts the value the text
+		// DECODES to (names and strings unescaped), the real function must produce a text that decodes to the same
+		for _, e := range exts {
+			sp, err := spelledToCoq(e.Config)
+			if err != nil {
+				run.Sum.Distribution["spelled-case:unparsed"]++
+				continue
+			}
+			out := canonDoc(configmanager.RedactDumpJSON(e.Config, "", ""))
+			jo, err := jsonToCoq(out)
+			if err != nil {
+				continue
+			}
+			spSh.Add("("+sp+", "+jo+")", map[string]interface{}{"kind": "spelled-text", "type": e.Type, "in": string(e.Config), "out": string(out)})
+			if spSh.Len() >= 60 {
+				spSh.Close()
+				spSh = run.NewShard(header, "spelled_case", "spelled_mismatches")
 			}
 		}
 		run.Count(fmt.Sprintf("ext|%v|%d", ops, nMarkers), nMarkers > 0, "endpoint:full-extensions")
@@ -673,6 +956,7 @@ func c20(args []string) int {
 	}
 	sh.Close()
 	extSh.Close()
+	spSh.Close()
 	return run.Finish()
 }
 
